@@ -6,6 +6,7 @@
   Property theorems only; proofs in Signac/Proofs/Sync*.lean.
 -/
 import Signac.Proofs.SyncMore
+import Signac.Proofs.SyncConflictExact
 namespace Signac.C14
 open Signac Signac.Sync
 
@@ -171,5 +172,116 @@ example : DocConf "" [("n", .obj [("q", .obj [("r", .int 1)])])] [("n", .obj [("
 example : ∃ e, (syncDoc (exOpts .none) "doc" [("doc", .file ⟨1, 8, 5, some (.obj [("x", .int 1)])⟩)]
     ⟨[("doc", .file ⟨2, 8, 5, some (.obj [("x", .int 2)])⟩)], []⟩).err = some e :=
   ⟨.docConflict ["x"], by rfl⟩
+
+/-! ### the payload of DocumentSyncConflict is exactly the set of conflicting keys
+
+  Hypotheses: the *source* document has pairwise distinct keys in every mapping (`NodupKeysObj`,
+  the predicate the idempotence theorems of C13 use; true of everything `json.loads` returns)
+  and the merge did not hit a TypeError.  Nothing is assumed of the destination document. -/
+
+/-- the payload as a list, order included: the specification `confItems` (Proofs/SyncConflictExact) -/
+theorem conflict_payload_eq (s d : Doc) (keys' : List String) (hs : NodupKeysObj s)
+    (hte : (byKeyItems none "" s ⟨d, [], false, false⟩).typeErr = false)
+    (herr : (runDocSync (.byKey none) s d).err = some (.docConflict keys')) :
+    keys' = confItems none "" s d := by
+  rw [runDocSync_conflict_payload hte herr, byKeyItems_skipped_spec none s d hs hte]
+
+/-- `conflict_payload_exact`: without key strategy, the keys DocumentSyncConflict reports are
+    exactly the conflicting keys (`DocConf`), nothing else. -/
+theorem conflict_payload_exact (s d : Doc) (keys' : List String) (hs : NodupKeysObj s)
+    (hte : (byKeyItems none "" s ⟨d, [], false, false⟩).typeErr = false)
+    (herr : (runDocSync (.byKey none) s d).err = some (.docConflict keys')) :
+    ∀ key, key ∈ keys' ↔ ∃ p v w, DocConf "" s d p v w key := by
+  intro key
+  rw [conflict_payload_eq s d keys' hs hte herr, mem_confItems_iff_docConf none "" s d hs key]
+  simp [keySelected]
+
+/-- `conflict_payload_nodup` is FALSE of the model (and of the code): dotted keys collide.  With
+    source `{"a.b": 1, "a": {"b": 1}}` and destination `{"a.b": 2, "a": {"b": 2}}` — both with
+    distinct keys in every mapping — the payload is `["a.b", "a.b"]`. -/
+theorem conflict_payload_nodup_false :
+    ¬ (∀ (s d : Doc) (keys' : List String), NodupKeysObj s → NodupKeysObj d →
+        (byKeyItems none "" s ⟨d, [], false, false⟩).typeErr = false →
+        (runDocSync (.byKey none) s d).err = some (.docConflict keys') → keys'.Nodup) := by
+  intro h
+  obtain ⟨h1, h2, h3, h4, h5⟩ := conflict_payload_dup_witness
+  exact h5 (h dupSrc dupDst _ h1 h2 h3 h4)
+
+/-- `conflict_payload_nodup_partial`: the payload has no duplicates under the extra hypothesis
+    `DotFreeObj s` — no key of the source document, in any mapping reached through mappings,
+    contains a dot. -/
+theorem conflict_payload_nodup_partial (s d : Doc) (keys' : List String) (hs : NodupKeysObj s)
+    (hdot : DotFreeObj s)
+    (hte : (byKeyItems none "" s ⟨d, [], false, false⟩).typeErr = false)
+    (herr : (runDocSync (.byKey none) s d).err = some (.docConflict keys')) :
+    keys'.Nodup := by
+  rw [conflict_payload_eq s d keys' hs hte herr]
+  exact confItems_nodup none "" s d hs hdot
+
+/-- `no_conflict_no_error`: with no conflicting key (and no TypeError) the default `ByKey` merge
+    does not raise. -/
+theorem no_conflict_no_error (s d : Doc) (hs : NodupKeysObj s)
+    (hte : (byKeyItems none "" s ⟨d, [], false, false⟩).typeErr = false)
+    (hno : ∀ key p v w, ¬ DocConf "" s d p v w key) :
+    (runDocSync (.byKey none) s d).err = none := by
+  rw [runDocSync_default_err, hte]
+  simp only [Bool.false_eq_true, if_false]
+  cases hsk : (byKeyItems none "" s ⟨d, [], false, false⟩).skipped with
+  | nil => rfl
+  | cons k rest =>
+    exfalso
+    have hk : k ∈ confItems none "" s d := by
+      rw [← byKeyItems_skipped_spec none s d hs hte, hsk]; exact List.mem_cons_self
+    obtain ⟨⟨p, v, w, hc⟩, _⟩ := (mem_confItems_iff_docConf none "" s d hs k).mp hk
+    exact hno k p v w hc
+
+/-- `bykey_skipped_exact`: with a key strategy `f` the model does record the skipped keys (the
+    code only logs them): they are exactly the conflicting keys `f` does not select — as a list,
+    `confItems (some f) "" s d`, without duplicates when no key contains a dot. -/
+theorem bykey_skipped_exact (f : String → Bool) (s d : Doc) (hs : NodupKeysObj s)
+    (hte : (byKeyItems (some f) "" s ⟨d, [], false, false⟩).typeErr = false) :
+    (∀ key, key ∈ (byKeyItems (some f) "" s ⟨d, [], false, false⟩).skipped ↔
+      (∃ p v w, DocConf "" s d p v w key) ∧ f key = false) ∧
+    (DotFreeObj s → (byKeyItems (some f) "" s ⟨d, [], false, false⟩).skipped.Nodup) := by
+  rw [byKeyItems_skipped_spec (some f) s d hs hte]
+  exact ⟨fun key => by rw [mem_confItems_iff_docConf (some f) "" s d hs key]; simp [keySelected],
+    fun hdot => confItems_nodup (some f) "" s d hs hdot⟩
+
+/-! non-vacuity: two nested conflicts (`a.x`, `a.y.z`), an equal key (`b`), a key only the
+    destination has (`a.only`) and a key only the source has (`c`) -/
+
+def exDocSrc : Doc :=
+  [("a", .obj [("x", .int 1), ("y", .obj [("z", .int 2)])]), ("b", .int 3), ("c", .int 4)]
+def exDocDst : Doc :=
+  [("a", .obj [("x", .int 10), ("y", .obj [("z", .int 20)]), ("only", .int 5)]), ("b", .int 3)]
+
+example : NodupKeysObj exDocSrc ∧ DotFreeObj exDocSrc ∧
+    (byKeyItems none "" exDocSrc ⟨exDocDst, [], false, false⟩).typeErr = false ∧
+    (runDocSync (.byKey none) exDocSrc exDocDst).err = some (.docConflict ["a.x", "a.y.z"]) ∧
+    confItems none "" exDocSrc exDocDst = ["a.x", "a.y.z"] ∧
+    docGet (runDocSync (.byKey none) exDocSrc exDocDst).doc ["a", "only"] = some (.int 5) :=
+  ⟨by simp [exDocSrc, NodupKeysObj, NodupKeysVal],
+   by simp [exDocSrc, DotFreeObj, DotFreeVal, dotFree], by rfl, by rfl, by rfl, by rfl⟩
+
+example : DocConf "" exDocSrc exDocDst ["a", "y", "z"] (.int 2) (.int 20) "a.y.z" :=
+  DocConf.sub (by decide) (by rfl) (by rfl) (by decide)
+    (DocConf.sub (by decide) (by rfl) (by rfl) (by decide)
+      (DocConf.leaf (by decide) (by rfl) (by rfl) (by decide) (by simp [IsLeaf])))
+
+/-- with the key strategy "select `a.x` only": `a.y.z` is the one skipped key, no error -/
+example : (byKeyItems (some (fun k => k == "a.x")) "" exDocSrc ⟨exDocDst, [], false, false⟩).skipped = ["a.y.z"] ∧
+    (runDocSync (.byKey (some (fun k => k == "a.x"))) exDocSrc exDocDst).err = none ∧
+    docGet (runDocSync (.byKey (some (fun k => k == "a.x"))) exDocSrc exDocDst).doc ["a", "x"] = some (.int 1) :=
+  ⟨by rfl, by rfl, by rfl⟩
+
+/-- no conflict (the documents differ only in keys one side lacks): no error -/
+example : (runDocSync (.byKey none) [("b", .int 3), ("c", .int 4)] exDocDst).err = none ∧
+    ∀ key p v w, ¬ DocConf "" [("b", .int 3), ("c", .int 4)] exDocDst p v w key := by
+  refine ⟨by rfl, fun key p v w hc => ?_⟩
+  have := (mem_confItems_iff_docConf none "" [("b", .int 3), ("c", .int 4)] exDocDst
+    (by simp [NodupKeysObj, NodupKeysVal]) key).mpr ⟨⟨p, v, w, hc⟩, rfl⟩
+  have h0 : confItems none "" [("b", .int 3), ("c", .int 4)] exDocDst = [] := by rfl
+  rw [h0] at this
+  cases this
 
 end Signac.C14
